@@ -58,6 +58,9 @@ def gen_cases(seed, tier):
                       "lin": bool(rng.random() < 0.5), "skip": bool(rng.random() < 0.5),
                       "bias": bool(rng.random() < 0.5), "dtype": "float64",
                       "seed": int(rng.integers(0, 2**31)), "factor": int(rng.choice([2, 3, 4]))})
+        if i % 5 in (1, 3):
+            # history on one layer object in eval mode: evaluate, change the parameters, evaluate on the same and on a new grid
+            cases[-1]["history"] = ["load_state_dict", "inplace", "sgd_step"][(i // 5) % 3]
     return cases
 
 
@@ -166,6 +169,35 @@ def _resolution(c, net, res, tol):
     xc = make(nc)
     xf = make(nc * f)
     try:
+        if c.get("history"):
+            mech["history"] = c["history"]
+            with torch.no_grad():
+                net(xc.clone())                              # the layer has seen the coarse grid with the old parameters
+            new = {k: v.clone() + 0.3 * torch.randn(v.shape, generator=g, dtype=v.dtype) for k, v in net.state_dict().items()}
+            if c["history"] == "load_state_dict":
+                net.load_state_dict(new)
+            elif c["history"] == "inplace":
+                with torch.no_grad():
+                    for k, p_ in net.named_parameters():
+                        p_.copy_(new[k])
+            else:
+                opt = torch.optim.SGD(net.parameters(), lr=1.0)
+                for k, p_ in net.named_parameters():
+                    p_.grad = (p_.detach() - new[k]).clone()  # one SGD step with lr 1 lands on the new parameters
+                opt.step()
+                opt.zero_grad()
+            fresh, _, _ = _build(c)
+            fresh.load_state_dict(net.state_dict())
+            with torch.no_grad():
+                want = fresh(xc.clone())
+                got = net(xc.clone())
+            e2 = float((got - want).abs().max())
+            res["judged"] += 1
+            res["counters"]["history_reevaluations"] = 1
+            if not e2 <= tol * max(1.0, float(want.abs().max())):
+                res["viol"].append(viol("stale_after_parameter_change", "layer evaluated, parameters changed by %s (still in eval mode), "
+                                        "evaluated again on the same grid: differs from a fresh layer with the same parameters by %.3g"
+                                        % (c["history"], e2), **mech))
         with torch.no_grad():
             yc = net(xc.clone())
             yf = net(xf.clone())
@@ -174,7 +206,7 @@ def _resolution(c, net, res, tol):
         return res
     scale = max(1.0, float(yc.abs().max()))
     err = float((yf[:, ::f, :] - yc).abs().max())
-    res["judged"] = 1
+    res["judged"] += 1
     res["nontrivial"] = K >= 1
     res["counters"]["resolution_pairs"] = 1
     res["counters"]["band_limit_sum"] = K
